@@ -56,6 +56,9 @@ def gen_frames(R, kind, stream_state, small=False, allow_stream=True):
     for i in range(n_stream):
         sid = R.choice([0, 4, 8, 1, 3, 2, 5, R.range(0, 400) * 4, R.range(0, 1 << 20)])
         ln = R.weighted([(0, 5), (1, 8), (R.range(2, 60), 35), (R.range(61, 300 if small else 1100), 52)])
+        if stream_state.get("lens") and R.chance(20):
+            ln = R.choice(stream_state["lens"])        # e.g. equally long requests on different streams
+        stream_state.setdefault("lens", []).append(ln)
         streams.append(["stream", sid, ln, R.chance(15), True, w(), w(), w(), R.chance(10)])
     seq = others + streams
     R.shuffle(seq)
@@ -123,6 +126,7 @@ def gen_quic_conn(R, cid, cfg, used, **epkw):
     A = R.fork("app")
     nfl = A.weighted([(0, 3), (1, 10), (2, 20), (A.range(3, 6), 40), (A.range(7, 8 if small else 14), 27)])
     script = []
+    sstate = {"c": {}, "s": {}}
     ku_pct = cfg.get("ku_pct", 25)
     for f in range(nfl):
         fl = {"c": [], "s": []}
@@ -131,7 +135,7 @@ def gen_quic_conn(R, cid, cfg, used, **epkw):
             for _ in range(A.weighted([(1, 60), (2, 20), (3, 10), (A.range(4, 6), 10)])):
                 pk = {"pnlen": A.weighted([(1, 30), (2, 35), (3, 15), (4, 20)]),
                       "skip": A.weighted([(0, 75), (1, 10), (A.range(2, 40), 10), (A.range(41, 200), 5)]),
-                      "frames": gen_frames(A.fork("fr", f, d, len(fl[d])), "1rtt", {}, small)}
+                      "frames": gen_frames(A.fork("fr", f, d, len(fl[d])), "1rtt", sstate[d], small)}
                 if A.chance(20):
                     pk["spin"] = 1
                 if A.chance(10):
